@@ -194,6 +194,13 @@ Theorem to_csv_history_aliasing_refuted :
 Proof. exact ToCsvHistP.history_aliasing_refuted. Qed.
 Print Assumptions to_csv_history_aliasing_refuted.
 
+(* 8b. closed form of a single call; the extracted entry evaluates frames with more than 4096 rows
+       through it (the statement-level model indexes the filter list per row, quadratic) *)
+Theorem to_csv_closed_form : forall fr rf cf chunk,
+  to_csv (to_csv_fuel fr chunk) V_fix fr rf cf chunk = to_csv_closed fr rf cf chunk.
+Proof. exact ToCsvHistP.closed_form. Qed.
+Print Assumptions to_csv_closed_form.
+
 (* 9. the linear-time parser evaluated by the extracted entry is the reference parser *)
 Theorem csv_parse_fast_eq : forall file, csv_parse_f file = csv_parse file.
 Proof. exact ToCsvFastP.csv_parse_f_eq. Qed.
